@@ -141,19 +141,19 @@ Definition weight_fn (l : list Q) (f : Q) : Q :=
   if Nat.eqb (n_fix l) 0 then 1 / qn (length l)
   else if posb f then f * scaleQ l else dynQ l.
 
-Lemma weighQ_map l : weighQ l = map (weight_fn l) l.
+Lemma weighQU_map l : weighQ_unrepaired l = map (weight_fn l) l.
 Proof.
-  unfold weighQ, weigh, weight_fn. cbv zeta. rewrite n_fixed_is.
+  unfold weighQ_unrepaired, weigh_unrepaired, weight_fn. cbv zeta. rewrite n_fixed_is.
   destruct (Nat.eqb (n_fix l) 0); reflexivity.
 Qed.
 
-Lemma weighQ_nth l i f : nth_error l i = Some f -> nth_error (weighQ l) i = Some (weight_fn l f).
-Proof. intros H. rewrite weighQ_map. now apply map_nth_error. Qed.
+Lemma weighQU_nth l i f : nth_error l i = Some f -> nth_error (weighQ_unrepaired l) i = Some (weight_fn l f).
+Proof. intros H. rewrite weighQU_map. now apply map_nth_error. Qed.
 
-Lemma weighQ_nth_inv l i w : nth_error (weighQ l) i = Some w ->
+Lemma weighQU_nth_inv l i w : nth_error (weighQ_unrepaired l) i = Some w ->
   exists f, nth_error l i = Some f /\ w = weight_fn l f.
 Proof.
-  rewrite weighQ_map, nth_error_map. destruct (nth_error l i) as [f|]; cbn; [|discriminate].
+  rewrite weighQU_map, nth_error_map. destruct (nth_error l i) as [f|]; cbn; [|discriminate].
   intros H. injection H as <-. eauto.
 Qed.
 
@@ -188,10 +188,10 @@ Lemma dynQ_unfold l :
            else (1 - sum_fixed arithQ l) / qn (n_dyn l).
 Proof. unfold dynQ, dynamic_from. cbv zeta. rewrite n_dyn_sub. reflexivity. Qed.
 
-(** weights_sum_one *)
-Theorem weights_sum_one l : l <> [] -> sumQ (weighQ l) == 1.
+(** weights_sum_one_unrepaired *)
+Theorem weights_sum_one_unrepaired l : l <> [] -> sumQ (weighQ_unrepaired l) == 1.
 Proof.
-  intros Hne. rewrite weighQ_map. unfold weight_fn.
+  intros Hne. rewrite weighQU_map. unfold weight_fn.
   assert (Hlen : (0 < length l)%nat) by (destruct l; [congruence|cbn; lia]).
   destruct (Nat.eqb (n_fix l) 0) eqn:E0.
   - rewrite sumQ_map_const. field. pose proof (qn_pos _ Hlen). lra.
@@ -216,10 +216,10 @@ Proof.
   rewrite dynQ_unfold. destruct (Q_lt _ 0) eqn:E; [lra|]. now apply Q_lt_false in E.
 Qed.
 
-(** weights_nonneg *)
-Theorem weights_nonneg l w : In w (weighQ l) -> 0 <= w.
+(** weights_nonneg_unrepaired *)
+Theorem weights_nonneg_unrepaired l w : In w (weighQ_unrepaired l) -> 0 <= w.
 Proof.
-  rewrite weighQ_map. intros H. apply in_map_iff in H. destruct H as (f & <- & Hin).
+  rewrite weighQU_map. intros H. apply in_map_iff in H. destruct H as (f & <- & Hin).
   unfold weight_fn. destruct (Nat.eqb (n_fix l) 0) eqn:E0.
   - assert (Hlen : (0 < length l)%nat) by (destruct l; [destruct Hin|cbn; lia]).
     pose proof (qn_pos _ Hlen). apply Qle_shift_div_l; lra.
@@ -229,13 +229,13 @@ Proof.
     + apply dynQ_nonneg.
 Qed.
 
-(** fixed_honoured: while the fixed weights do not exceed 100% and some target is
+(** fixed_honoured_unrepaired: while the fixed weights do not exceed 100% and some target is
     dynamic, every fixed weight is the effective weight *)
-Theorem fixed_honoured l i f w :
+Theorem fixed_honoured_unrepaired l i f w :
   nth_error l i = Some f -> 0 < f -> sum_pos l <= 1 -> (n_fix l < length l)%nat ->
-  nth_error (weighQ l) i = Some w -> w == f.
+  nth_error (weighQ_unrepaired l) i = Some w -> w == f.
 Proof.
-  intros Hn Hf Hsum Hdyn Hw. rewrite (weighQ_nth l i f Hn) in Hw. injection Hw as <-.
+  intros Hn Hf Hsum Hdyn Hw. rewrite (weighQU_nth l i f Hn) in Hw. injection Hw as <-.
   assert (Hp : posb f = true) by now apply Q_gt_true.
   pose proof (posb_in_nfix l f (nth_error_In _ _ Hn) Hp) as Hnf.
   unfold weight_fn. replace (Nat.eqb (n_fix l) 0) with false by (symmetry; apply Nat.eqb_neq; lia).
@@ -246,12 +246,12 @@ Proof.
   cbn [orb andb]. ring.
 Qed.
 
-(** scaled_down: fixed weights exceeding 100% are normalised proportionally ... *)
-Theorem scaled_down l i f w :
+(** scaled_down_unrepaired: fixed weights exceeding 100% are normalised proportionally ... *)
+Theorem scaled_down_unrepaired l i f w :
   nth_error l i = Some f -> 0 < f -> 1 < sum_pos l ->
-  nth_error (weighQ l) i = Some w -> w == f / sum_pos l.
+  nth_error (weighQ_unrepaired l) i = Some w -> w == f / sum_pos l.
 Proof.
-  intros Hn Hf Hsum Hw. rewrite (weighQ_nth l i f Hn) in Hw. injection Hw as <-.
+  intros Hn Hf Hsum Hw. rewrite (weighQU_nth l i f Hn) in Hw. injection Hw as <-.
   assert (Hp : posb f = true) by now apply Q_gt_true.
   pose proof (posb_in_nfix l f (nth_error_In _ _ Hn) Hp) as Hnf.
   unfold weight_fn. replace (Nat.eqb (n_fix l) 0) with false by (symmetry; apply Nat.eqb_neq; lia).
@@ -262,11 +262,11 @@ Proof.
 Qed.
 
 (** ... and the dynamic targets get nothing *)
-Theorem scaled_down_dynamic l i f w :
+Theorem scaled_down_dynamic_unrepaired l i f w :
   nth_error l i = Some f -> ~ 0 < f -> 1 < sum_pos l ->
-  nth_error (weighQ l) i = Some w -> w == 0.
+  nth_error (weighQ_unrepaired l) i = Some w -> w == 0.
 Proof.
-  intros Hn Hf Hsum Hw. rewrite (weighQ_nth l i f Hn) in Hw. injection Hw as <-.
+  intros Hn Hf Hsum Hw. rewrite (weighQU_nth l i f Hn) in Hw. injection Hw as <-.
   assert (Hp : posb f = false).
   { destruct (posb f) eqn:E; [apply Q_gt_true in E; contradiction|reflexivity]. }
   pose proof (negb_in_ndyn l f (nth_error_In _ _ Hn) Hp) as Hk.
@@ -278,12 +278,12 @@ Proof.
   symmetry. apply Q_lt_true. apply Qlt_shift_div_r; [exact Hq|]. rewrite sum_fixed_eq. lra.
 Qed.
 
-(** scaled_up: when every target is fixed and they sum to less than 100% *)
-Theorem scaled_up l i f w :
+(** scaled_up_unrepaired: when every target is fixed and they sum to less than 100% *)
+Theorem scaled_up_unrepaired l i f w :
   nth_error l i = Some f -> n_fix l = length l -> sum_pos l < 1 ->
-  nth_error (weighQ l) i = Some w -> w == f / sum_pos l.
+  nth_error (weighQ_unrepaired l) i = Some w -> w == f / sum_pos l.
 Proof.
-  intros Hn Hall Hsum Hw. rewrite (weighQ_nth l i f Hn) in Hw. injection Hw as <-.
+  intros Hn Hall Hsum Hw. rewrite (weighQU_nth l i f Hn) in Hw. injection Hw as <-.
   assert (Hp : posb f = true).
   { destruct (posb f) eqn:E; [reflexivity|].
     pose proof (negb_in_ndyn l f (nth_error_In _ _ Hn) E). pose proof (length_split l). lia. }
@@ -296,13 +296,13 @@ Proof.
   pose proof (sum_pos_pos l Hnf). field. lra.
 Qed.
 
-(** dynamic_equal_share: every dynamic target gets the same share, the remainder
+(** dynamic_equal_share_unrepaired: every dynamic target gets the same share, the remainder
     (1 - min(1, sum of the fixed weights)) divided by the number of dynamic targets *)
-Theorem dynamic_equal_share l i f w :
+Theorem dynamic_equal_share_unrepaired l i f w :
   nth_error l i = Some f -> ~ 0 < f ->
-  nth_error (weighQ l) i = Some w -> w == (1 - Qmin 1 (sum_pos l)) / qn (n_dyn l).
+  nth_error (weighQ_unrepaired l) i = Some w -> w == (1 - Qmin 1 (sum_pos l)) / qn (n_dyn l).
 Proof.
-  intros Hn Hf Hw. rewrite (weighQ_nth l i f Hn) in Hw. injection Hw as <-.
+  intros Hn Hf Hw. rewrite (weighQU_nth l i f Hn) in Hw. injection Hw as <-.
   assert (Hp : posb f = false).
   { destruct (posb f) eqn:E; [apply Q_gt_true in E; contradiction|reflexivity]. }
   pose proof (negb_in_ndyn l f (nth_error_In _ _ Hn) Hp) as Hk. pose proof (qn_pos _ Hk) as Hq.
@@ -341,12 +341,12 @@ Proof.
     assert (w <= sumQ l) by (apply IH; [intros z Hz; apply Hnn; now right|exact Hin]). lra.
 Qed.
 
-Theorem weights_le_one l w : In w (weighQ l) -> w <= 1.
+Theorem weights_le_one_unrepaired l w : In w (weighQ_unrepaired l) -> w <= 1.
 Proof.
   intros Hin. assert (Hne : l <> []).
-  { intros ->. rewrite weighQ_map in Hin. destruct Hin. }
-  rewrite <- (weights_sum_one l Hne). apply in_le_sumQ; [|exact Hin].
-  intros x Hx. now apply (weights_nonneg l).
+  { intros ->. rewrite weighQU_map in Hin. destruct Hin. }
+  rewrite <- (weights_sum_one_unrepaired l Hne). apply in_le_sumQ; [|exact Hin].
+  intros x Hx. now apply (weights_nonneg_unrepaired l).
 Qed.
 
 (* ---------- slot counts ---------- *)
@@ -462,7 +462,7 @@ Qed.
 
 (* non-vacuity: concrete lists meet the hypotheses of the theorems above *)
 Example weigh_example_some_fixed :
-  weighQ [3 # 10; 0; 57 # 100; 0] = [(3 # 10) * 1; (1 - (0 + (3 # 10) + (57 # 100))) / inject_Z 2;
+  weighQ_unrepaired [3 # 10; 0; 57 # 100; 0] = [(3 # 10) * 1; (1 - (0 + (3 # 10) + (57 # 100))) / inject_Z 2;
                                      (57 # 100) * 1; (1 - (0 + (3 # 10) + (57 # 100))) / inject_Z 2].
 Proof. vm_compute. reflexivity. Qed.
 
@@ -473,3 +473,53 @@ Example weigh_example_hyps :
   sum_pos ex_some <= 1 /\ (n_fix ex_some < length ex_some)%nat
   /\ 1 < sum_pos ex_over /\ sum_pos ex_under < 1 /\ n_fix ex_under = length ex_under.
 Proof. vm_compute. repeat split; try discriminate; try lia. Qed.
+
+(* ====================================================================== *)
+(* weighTargets since commit 290c777: the computed weights, or the even    *)
+(* distribution when one of them is unusable or no slot is used            *)
+(* ====================================================================== *)
+Lemma weighQ_cases l : weighQ l = weighQ_unrepaired l \/ weighQ l = weigh_even arithQ l.
+Proof. unfold weighQ, weigh. destruct (uses_fill arithQ l); [left|right]; reflexivity. Qed.
+
+Lemma weigh_even_map l : weigh_even arithQ l = map (fun _ => 1 / qn (length l)) l.
+Proof. reflexivity. Qed.
+
+Lemma weigh_even_sum_one l : l <> [] -> sumQ (weigh_even arithQ l) == 1.
+Proof.
+  intros Hne. assert (Hlen : (0 < length l)%nat) by (destruct l; [congruence|cbn; lia]).
+  rewrite weigh_even_map, sumQ_map_const. field. pose proof (qn_pos _ Hlen). lra.
+Qed.
+
+Lemma weigh_even_range l w : In w (weigh_even arithQ l) -> 0 <= w /\ w <= 1.
+Proof.
+  rewrite weigh_even_map. intros Hin. apply in_map_iff in Hin. destruct Hin as (f & <- & Hf).
+  assert (Hlen : (0 < length l)%nat) by (destruct l; [destruct Hf|cbn; lia]).
+  assert (Hq : 1 <= qn (length l)).
+  { unfold qn. change 1 with (inject_Z 1). rewrite <- Zle_Qle. lia. }
+  split; [apply Qle_shift_div_l; lra|apply Qle_shift_div_r; lra].
+Qed.
+
+(** weights_sum_one / weights_nonneg / weights_le_one hold for the code as it is, for every
+    non-empty target list, whether or not the fallback is taken *)
+Theorem weights_sum_one l : l <> [] -> sumQ (weighQ l) == 1.
+Proof.
+  intros Hne. destruct (weighQ_cases l) as [-> | ->];
+    [now apply weights_sum_one_unrepaired|now apply weigh_even_sum_one].
+Qed.
+
+Theorem weights_nonneg l w : In w (weighQ l) -> 0 <= w.
+Proof.
+  destruct (weighQ_cases l) as [-> | ->]; intros Hin;
+    [now apply (weights_nonneg_unrepaired l)|now apply (weigh_even_range l)].
+Qed.
+
+Theorem weights_le_one l w : In w (weighQ l) -> w <= 1.
+Proof.
+  destruct (weighQ_cases l) as [-> | ->]; intros Hin;
+    [now apply (weights_le_one_unrepaired l)|now apply (weigh_even_range l)].
+Qed.
+
+Lemma weighQ_length l : length (weighQ l) = length l.
+Proof.
+  destruct (weighQ_cases l) as [-> | ->]; [rewrite weighQU_map|rewrite weigh_even_map]; apply map_length.
+Qed.
